@@ -36,6 +36,9 @@ func (m *Mutex) Unlock() {
 		m.in.Unlock()
 		return
 	}
+	if unlockPoint {
+		vsched.PointOp(e, t, vsched.Op{Kind: vsched.OpUnlock, Obj: m})
+	}
 	m.owner = nil
 	m.in.Unlock()
 	vsched.PointOp(e, t, vsched.Op{Kind: vsched.OpUnlock, Obj: m})
@@ -80,9 +83,38 @@ func (m *RWMutex) Unlock() {
 		m.in.Unlock()
 		return
 	}
+	if unlockPoint {
+		vsched.PointOp(e, t, vsched.Op{Kind: vsched.OpUnlock, Obj: m})
+	}
 	m.writer = nil
 	m.in.Unlock()
 	vsched.PointOp(e, t, vsched.Op{Kind: vsched.OpUnlock, Obj: m})
+}
+
+func (m *RWMutex) TryLock() bool {
+	e, t := vsched.Self()
+	if e == nil {
+		return m.in.TryLock()
+	}
+	vsched.PointOp(e, t, vsched.Op{Kind: vsched.OpLock, Obj: m})
+	if m.writer != nil || m.readers != 0 || !m.in.TryLock() {
+		return false
+	}
+	m.writer = t
+	return true
+}
+
+func (m *RWMutex) TryRLock() bool {
+	e, t := vsched.Self()
+	if e == nil {
+		return m.in.TryRLock()
+	}
+	vsched.PointOp(e, t, vsched.Op{Kind: vsched.OpRLock, Obj: m})
+	if m.writer != nil || !m.in.TryRLock() {
+		return false
+	}
+	m.readers++
+	return true
 }
 
 func (m *RWMutex) RLock() {
@@ -101,6 +133,9 @@ func (m *RWMutex) RUnlock() {
 	if e == nil {
 		m.in.RUnlock()
 		return
+	}
+	if unlockPoint {
+		vsched.PointOp(e, t, vsched.Op{Kind: vsched.OpRUnlock, Obj: m})
 	}
 	m.readers--
 	m.in.RUnlock()
